@@ -32,6 +32,9 @@ def _cases(tier, seed):
             cs.append({'scen': 'tt_norm', 's': {'N': N, 'M': M, 'R': R, 'dtype': 'float64', 'tracked': True, 'squared': sq}})
     cs.append({'scen': 'tt_norm', 's': {'N': [2, 2], 'R': [1, 2, 1], 'dtype': 'complex128', 'tracked': True, 'squared': True}})
     cs.append({'scen': 'tt_norm', 's': {'N': [2], 'R': [1, 1], 'dtype': 'complex128', 'tracked': True, 'squared': False}})
+    cs.append({'scen': 'tt_norm', 's': {'N': [2], 'M': [2], 'R': [1, 1], 'dtype': 'complex128', 'tracked': True, 'squared': True}})
+    cs.append({'scen': 'tt_norm', 's': {'N': [2, 1], 'M': [1, 2], 'R': [1, 2, 1], 'dtype': 'complex128', 'tracked': True, 'squared': True}})
+    cs.append({'scen': 'tt_norm', 's': {'N': [1, 2], 'M': [2, 1], 'R': [1, 1, 1], 'dtype': 'complex128', 'tracked': True, 'squared': False}})
     # ---- norm, untracked (QR sweep; exact factorization models, see tv/factor.py)
     for N, R in [([3], [1, 1]), ([1], [1, 1]), ([2, 3], [1, 2, 1]), ([2, 3], [1, 1, 1]), ([2, 2, 2], [1, 1, 2, 1]), ([2, 2, 2], [1, 2, 1, 1]),
                  ([3, 2], [1, 2, 1]), ([1, 3], [1, 1, 1]), ([2, 1, 2], [1, 1, 1, 1])] + ([([2, 2, 2, 2], [1, 1, 2, 1, 1]), ([2, 3, 2], [1, 2, 1, 1])] if th else []):
